@@ -38,7 +38,9 @@ META = {
                   "sum to (sum of defects)*2/pi, which is 4 chi under the Gauss-Bonnet premise stated in the theorem (C07's result; "
                   "tested per run on the defects the code uses, not linked by proof); re-flagging on a mesh object that carried earlier "
                   "fields stores exactly the indices of the field asked for (both element kinds; the `.clear()` of both "
-                  "flag_singularities is generated); the stage plumbing of FrameField.run() (generated: initialize iff not "
+                  "flag_singularities is generated); which vertex a face starts from changes neither the tangent basis nor the "
+                  "constraint of a face with exactly one feature edge, nor the combinatorial layer (left face of an edge, dual "
+                  "edges, constrained faces, free / fixed partition) for any face (C18_face_rotation_*); the stage plumbing of FrameField.run() (generated: initialize iff not "
                   "initialised, optimize iff not smoothed, independently; C18_init_caches: the face field caches no attribute in "
                   "_initialize_attributes) guarantees that any order of the public calls "
                   "initialize / optimize / run / __call__ containing a run() has optimised; gauge covariance of operator + partition + solve: whatever any solver "
